@@ -263,6 +263,37 @@ def e2(prog, ctx, L):
         ctx.fail("E2", "econf_errLocation returns the record", el.where, "reads %s" % sorted(reads), key="loc-getter")
 
 
+def _e5_by_cases(prog, ctx, vals):
+    """econf_errString without a table: a switch over the codes that hands out literals.  Decided code by code: with the parameter
+    set to the code, every return that a consistent path reaches delivers one non-empty literal."""
+    es = prog.fn("econf_errString")
+    if not any(x.k == "SwitchStmt" for x in es.walk()):
+        return False
+    ctx.touch(es)
+    cfg = es.cfg
+    p = es.params[0]["name"]
+    dense = [v for _, v in vals] == list(range(len(vals)))
+    if not dense:
+        ctx.fail("E5", "error codes are dense from 0", "include/libeconf.h", "enumerator values %s" % [v for _, v in vals], key="enum-dense")
+    missing, texts = [], {}
+    for name, v in vals:
+        got = set()
+        for r in es.returns():
+            got |= cfg.values_at_return(r, init_facts={p: bool(v), "=" + p: v})
+        if len(got) == 1 and isinstance(next(iter(got)), tuple) and next(iter(got))[1]:
+            texts[name] = next(iter(got))[1]
+        else:
+            missing.append((name, sorted(str(x) for x in got)))
+    if missing:
+        unknown = [m for m in missing if m[1] != ["None"] and "None" in m[1] or not m[1]]
+        ctx.fail("E5", "one message per error code", es.where,
+                 "no fixed text for %s" % ", ".join("%s (delivers %s)" % (n9, g9) for n9, g9 in missing[:4]), key="messages-count")
+    else:
+        ctx.ok("E5", "one message per error code", es.where, "%d enumerators, each with its own case and a non-empty literal" % len(vals))
+        ctx.ok("E5", "econf_errString selects the text by its argument", es.where, "switch over %s; decided for each of the %d codes" % (p, len(vals)))
+    return True
+
+
 def e5(prog, ctx):
     enum = prog.enum("econf_err")
     vals = [(c["name"], c["val"]) for c in enum["enumerators"]]
@@ -282,6 +313,8 @@ def e5(prog, ctx):
                         j0["is_def"] = True
                         j0["file"] = es0.file
                         g = GlobalVar(j0, es0.unit)
+    if g is None and _e5_by_cases(prog, ctx, vals):
+        return
     if g is None:
         raise Inconclusive("messages[] vanished")
     msgs = g.init_strings()
